@@ -277,8 +277,8 @@ def run_hist(case):
 
 
 def legs(tier):
-    return [Leg('search', _case_single(), run_single, 3000, 100000, max_shrink_buckets=8),
-            Leg('history', _case_hist(), run_hist, 800, 30000)]
+    return [Leg('search', _case_single(), run_single, 10000, 100000, max_shrink_buckets=8),
+            Leg('history', _case_hist(), run_hist, 3000, 30000)]
 
 
 REGIONS = {}
